@@ -178,6 +178,10 @@ impl<T: Copy + Clone + Number + Signed + std::fmt::Debug> Polynomial<T> {
             t.coeffs[ r.degree()? - v.degree()? ] = r.coeffs[ r.degree()? ] / v.coeffs[ v.degree()? ];
             q = q + t.clone();
             r = r - ( t * v.clone() );
+            // The leading term cancels by construction; in floating point a rounding
+            // residue may be left behind, so drop it instead of relying on trim()
+            r.coeffs.pop();
+            if r.coeffs.is_empty() { r.coeffs.push( T::zero() ); }
             r.trim();
             q.trim();
             count += 1;
